@@ -355,3 +355,14 @@ TEXT["C17"] = {
     "level_note": NODE_NOTE,
     "technique": "TLA+ spec + TLC (MC_Node invariant RejectedLeavesNoTrace) + twin-run driver with trace validation (MonC17)",
 }
+
+PROPS["C16"] = {
+    "level": "model_checking",
+    "monitors": ["C16"],
+    "mc": node_mc("C16"),
+    "drivers": node_drivers(3, 12, [["--codecs", ALLC], ["--codecs", "fixed,var", "--forge", "--junk"]]),
+}
+TEXT["C16"] = node_text("The handler is scripted (keys/versions parsed from item bytes whose filler is a function of key, version and "
+                        "position, three invalidation relations, three recipient predicates, accepting / discarding / failing "
+                        "handlers); its call log is part of every trace event.",
+                        "TLA+ spec + TLC (MC_Node invariant MonC16, Backlog!FillOk with length prefix) + trace validation with a scripted BroadcastHandler")
